@@ -30,7 +30,7 @@ CLAIMED = {
         design='DESIGN.md §7 C06', note=BASE_NOTE),
     'C13': dict(
         technique='Lean 4 theorems (per-key factorisation of dictionary updates and of from_sequence / get_subset at extension level) + before/after snapshots + single-key re-runs on the implementation',
-        text='A per-key update run over a dictionary is proved to change each key independently (foldl_putKey_key, insertWith_key, filterMeta_key); the result entry of every key of a successful from_sequence / get_subset is proved to be the per-key merge / subset of the inputs' entries for that key (fromSequence_key, getSubset_key); on the implementation every merge/subset input is snapshotted before and after and every result is compared with the result of inputs restricted to one key.',
+        text='A per-key update run over a dictionary is proved to change each key independently (foldl_putKey_key, insertWith_key, filterMeta_key); the result entry of every key of a successful from_sequence / get_subset is proved to be the per-key merge / subset of the entries the inputs hold for that key (fromSequence_key, getSubset_key); on the implementation every merge/subset input is snapshotted before and after and every result is compared with the result of inputs restricted to one key.',
         design='DESIGN.md §7 C13', note=BASE_NOTE + ' Aliasing of nested mutable values (Python object identity) is runtime and only probed.'),
     'C07': dict(
         technique='Lean 4 one-step validity theorems (make_empty, merge, subset, simplify) + random API-operation chains checked after every step',
